@@ -13,8 +13,9 @@ import ScyllaVerif.Model.TabletsRefresh
     `t`                           dump `[<tablet>|…]u<unresolved>s<stale>`
     `A<ks>.<table>:<first>:<last>:<reps>`   `TabletsInfo::add_tablet`
     `M<ks>:<0|1>:<t>+<t>&…/<removed>/<recreated>`   `TabletsInfo::perform_maintenance`
-    `T`                           dump of every table of the `TabletsInfo`, sorted
+    `T`                           dump of every table of the `TabletsInfo`, sorted, then `u<unresolved>s<stale>`
     `Q<ks>.<table>:<token>`       `tablets_for_table(..).replicas_for_token(..)`
+    `D<ks>.<table>:<token>@<dc>`  `tablets_for_table(..).dc_replicas_for_token(..)`
 * `cs <op>;<op>;…` — one history on a real `ClusterState` (tablet keyspace `k0` with tables `t0`, `t1`):
     `P<peer>,<peer>…`             first: `ClusterState::new`; later: a metadata refresh (`new_updated`); a peer is
                                   `<id>[@<dc>[/<rack>]]`, its address is its position in the list → `P<ids whose Node object was kept>`
@@ -176,14 +177,31 @@ def tabOp (w : World) (op : String) : Option (World × String) :=
           -- `collect::<HashMap<_, _>>()`: a repeated keyspace name keeps the last entry
           let keyspaces := kss.foldl (fun acc ks => alSet ks.1 ks.2 acc) ([] : List (String × Bool × List String))
           let (w1, recMap) := applyTopology w removed recreated
-          some ({ w1 with info := w1.info.maintenance keyspaces removed w1.nodes recMap }, "M")
+          let inf := w1.info.maintenance keyspaces removed w1.nodes recMap
+          let all := inf.tables.flatMap (·.2.tablets)
+          some ({ w1 with info := inf }, s!"M{unresolved all}:{staleCount w1.nodes all}")
         | _, _, _ => none
       | _ => none
     else if c == 'T' then
       if arg != "" then none else
       let sorted := w.info.tables.foldl (fun acc e => insertSorted e acc) []
-      some (w, if sorted.isEmpty then "-" else
+      let all := w.info.tables.flatMap (·.2.tablets)
+      some (w, (if sorted.isEmpty then "-" else
         "&".intercalate (sorted.map fun e => s!"{e.1.1}.{e.1.2}=" ++ "[" ++ "|".intercalate (e.2.tablets.map showTablet) ++ "]"))
+        ++ s!"u{unresolved all}s{staleCount w.nodes all}")
+    else if c == 'D' then
+      match arg.splitOn "@" with
+      | [a, dc] =>
+        match a.splitOn ":" with
+        | [spec, tok] =>
+          match spec.splitOn ".", tok.toInt? with
+          | [ks, tb], some tok =>
+            some (w, match alGet (ks, tb) w.info.tables with
+              | none => "none"
+              | some tbl => showOptReps (dcReplicasForToken tbl.tablets (tokenNew tok) dc))
+          | _, _ => none
+        | _ => none
+      | _ => none
     else if c == 'Q' then
       match arg.splitOn ":" with
       | [spec, tok] =>
